@@ -4,10 +4,8 @@ VERUS_UNITS = {
 }
 
 PROPERTIES = {
-    "C05": {
-        "verus": ["V-frame"],
-        "kani": [],
-        "claim": "",
-        "not_covered": "",
-    },
+    "C01": {"verus": ["V-frame"], "kani": ["K-number"]},
+    "C05": {"verus": ["V-frame"], "kani": ["K-emit"]},
+    "C06": {"verus": ["V-frame"], "kani": ["K-number", "K-emit"]},
+    "C14": {"verus": [], "kani": ["K-number"]},
 }
